@@ -10,7 +10,9 @@
 (*   "cn"  CloseNotify requested from another goroutine (the reader is     *)
 (*         blocked, or the connection has already terminated)              *)
 (*   terminators: "x" undecodable message, "xt" undecodable message with   *)
-(*         trailing data in a separate fragment, "eof" peer close, "rerr"  *)
+(*         trailing data in a separate fragment, "xbig" undecodable        *)
+(*         message followed in the SAME fragment by more trailing bytes    *)
+(*         than the read buffer holds, "eof" peer close, "rerr"            *)
 (*         transport read error, "lclose" local Close                      *)
 (* After each step the harness records the state of every channel obtained *)
 (* so far and the number of messages handed to handlers; at the end the    *)
@@ -18,7 +20,7 @@
 (***************************************************************************)
 EXTENDS Integers, Sequences, TLC
 
-Terminators == {"x", "xt", "eof", "rerr", "lclose"}
+Terminators == {"x", "xt", "xbig", "eof", "rerr", "lclose"}
 Requests(ev) == IF ev \in {"mh", "mm", "cn"} THEN 1 ELSE 0
 Delivers(ev) == CASE ev \in {"m", "mh", "m2"} -> 1 [] ev = "mm" -> 2 [] OTHER -> 0
 
